@@ -58,3 +58,52 @@ func H_C08_decode_forms() {
 		vAssert("one", err == nil && got == 1)
 	}
 }
+
+type ZFloats struct {
+	F32 float32
+	F64 float64
+	Fs  []float32
+}
+
+// H_C08_float32_field: every float32 bit pattern in a struct field and in a []float32 is recovered exactly
+// (NaN as NaN).
+func H_C08_float32_field() {
+	f := vFloat32("f")
+	v := &ZFloats{F32: 1.5, F64: 2.5}
+	if vChoice("where", 2) == 0 {
+		v.F32 = f
+	} else {
+		v.Fs = []float32{f}
+	}
+	tm, nm := vExtract(v)
+	bs, err := ToBytes(v, nm)
+	vAssert("encode-noerr", err == nil)
+	out, err := ToObject(bs, tm)
+	vAssert("decode-noerr", err == nil)
+	g, ok := out.(*ZFloats)
+	vAssert("type", ok && len(g.Fs) == len(v.Fs))
+	vAssert("f32-exact", vAnd(eqF32(g.F32, v.F32), eqF64(g.F64, v.F64)))
+	if len(v.Fs) == 1 {
+		vAssert("f32-elem-exact", eqF32(g.Fs[0], f))
+	}
+}
+
+// H_C08_double_positions: a float64 at top level and in a struct field, all bit patterns.
+func H_C08_double_positions() {
+	x := vFloat64("x")
+	if vChoice("where", 2) == 0 {
+		bs, err := ToBytes(x, nil)
+		vAssert("encode-noerr", err == nil)
+		out, err := ToObject(bs, nil)
+		g, ok := out.(float64)
+		vAssert("top", err == nil && ok && eqF64(g, x))
+		return
+	}
+	v := &ZFloats{F64: x}
+	tm, nm := vExtract(v)
+	bs, err := ToBytes(v, nm)
+	vAssert("encode-noerr", err == nil)
+	out, err := ToObject(bs, tm)
+	g, ok := out.(*ZFloats)
+	vAssert("field", err == nil && ok && eqF64(g.F64, x))
+}
